@@ -545,6 +545,17 @@ func (x *Exec) checkAccess(s *State, loc *Loc, write bool, in ssa.Instruction) {
 	}
 	ts, tn, field := x.classify(loc.Path)
 	if ts == nil {
+		if strings.HasPrefix(loc.Path, "glob:") {
+			// package-level variables are shared by every goroutine and guarded by nothing:
+			// reading is fine, writing outside package initialisation is not
+			if write && !strings.HasSuffix(fnName(x.fn), ".init") {
+				x.emit(s, "owns", strings.TrimPrefix(loc.Path, "glob:")+"_package_variable_written", x.spec.Owns, "false", nil)
+			}
+			return
+		}
+		if !x.isFresh(s, loc.Base) {
+			x.note("access to a cell outside the classified struct types (captured variable / copied value): " + loc.Path)
+		}
 		return
 	}
 	if x.isFresh(s, loc.Base) {
@@ -584,7 +595,29 @@ func (x *Exec) checkAccess(s *State, loc *Loc, write bool, in ssa.Instruction) {
 		}
 		return
 	}
-	x.note("unclassified field " + tn + "." + field)
+	// A field the contract files do not classify (e.g. one added after they were written):
+	// inferred discipline - some lock of the same object is held (exclusively for a write);
+	// a type without any lock behaves as immutable after construction.
+	x.note("unclassified field " + tn + "." + field + ": inferred discipline (a lock of the same object is held; writes exclusively)")
+	good := false
+	for k, h := range s.held {
+		if strings.HasPrefix(k, loc.Base+"|") && (h.Write || !write) {
+			good = true
+		}
+	}
+	if ownerLock, isOwned := s.ownedBy[loc.Base]; isOwned && !good {
+		if oh, ok := s.held[ownerLock]; ok && (oh.Write || !write) {
+			good = true
+		}
+	}
+	if !good && !write && len(ts.Guarded) == 0 {
+		good = true
+	}
+	goal := "true"
+	if !good {
+		goal = "false"
+	}
+	x.emit(s, "owns", label+"_unclassified", x.spec.Owns, goal, nil)
 }
 
 // lockOp models Lock/RLock/Unlock/RUnlock on a mutex given by location or reference.
